@@ -31,7 +31,7 @@ ASSUMPTIONS = ["floats beyond 1e15 seconds are not generated (t*rate overflows t
                "the statement defines the milliseconds view through t/1000: integer millisecond bounds are generated up to 10**300 in "
                "magnitude, where t/1000 (and its product with the rate) is still a finite float; beyond that the unchanged tree raises "
                "OverflowError from that very division (samples / seconds views take ints of thousands of digits)"]
-BOUNDS = {"quick": dict(n=700, maxlen=12), "thorough": dict(n=15000, maxlen=16)}
+BOUNDS = {"quick": dict(n=700, maxlen=12), "thorough": dict(n=8000, maxlen=16)}
 
 
 def unpack(v):
